@@ -94,6 +94,8 @@ pub struct Case {
     pub prog: Program,
     pub site: Site,
     pub delta: usize,
+    /// earlier library calls played on the same thread before the subject (non-initial state)
+    pub hist: Vec<crate::history::Prior>,
 }
 
 #[derive(Debug)]
@@ -113,6 +115,17 @@ pub fn run_case<G: Cv>(env: &Env<G>, c: &Case, seed: u64) -> Out {
         Site::KStruct(k) => Dev::KConstStruct { k: *k, sel: c.delta },
         s => s.dev(delta),
     };
+    if !c.hist.is_empty() {
+        let b = match crate::history::base::<G>(env, seed) {
+            Ok(b) => b,
+            Err(e) => return Out::NoProof(format!("precondition: history base: {}", e)),
+        };
+        for ev in &c.hist {
+            if let Err(m) = crate::history::play::<G>(env, &b, ev, seed) {
+                return Out::NoProof(format!("precondition: history event panicked: {} {}", ev.name(), m));
+            }
+        }
+    }
     let pr = match guarded(|| program::prove::<G>(&c.prog, &env.pc, &env.bp, seed, "c02", dev.clone())) {
         Ok(p) => p,
         // a prover that panics emits no proof: nothing can be accepted (completeness and panics on
@@ -194,8 +207,8 @@ pub fn cases(tier: Tier) -> (Vec<Case>, Value) {
             for d in 0..nd {
                 if matches!(s, Site::KStruct(_)) {
                     match tier {
-                        Tier::Quick => out.push(Case { curve: CURVES[idx % 3], prog: p.clone(), site: s.clone(), delta: d }),
-                        Tier::Thorough => out.push(Case { curve: CURVES[idx % 3], prog: p.clone(), site: s.clone(), delta: d }),
+                        Tier::Quick => out.push(Case { curve: CURVES[idx % 3], prog: p.clone(), site: s.clone(), delta: d, hist: vec![] }),
+                        Tier::Thorough => out.push(Case { curve: CURVES[idx % 3], prog: p.clone(), site: s.clone(), delta: d, hist: vec![] }),
                     }
                     idx += 1;
                     continue;
@@ -209,14 +222,14 @@ pub fn cases(tier: Tier) -> (Vec<Case>, Value) {
                 }
                 match tier {
                     Tier::Quick => {
-                        out.push(Case { curve: CURVES[idx % 3], prog: p.clone(), site: s.clone(), delta: d });
+                        out.push(Case { curve: CURVES[idx % 3], prog: p.clone(), site: s.clone(), delta: d, hist: vec![] });
                     }
                     Tier::Thorough => {
                         if p.p1.len() >= 3 && !p.closures.is_empty() {
-                            out.push(Case { curve: CURVES[idx % 3], prog: p.clone(), site: s.clone(), delta: d });
+                            out.push(Case { curve: CURVES[idx % 3], prog: p.clone(), site: s.clone(), delta: d, hist: vec![] });
                         } else {
                             for c in CURVES {
-                                out.push(Case { curve: c, prog: p.clone(), site: s.clone(), delta: d });
+                                out.push(Case { curve: c, prog: p.clone(), site: s.clone(), delta: d, hist: vec![] });
                             }
                         }
                     }
@@ -225,14 +238,32 @@ pub fn cases(tier: Tier) -> (Vec<Case>, Value) {
             }
         }
     }
-    let b = json!({"program_space": desc, "size_family": format!("S({})", sn), "programs": all.len(),
+    // non-initial states: every depth-1 history of earlier calls in front of every site of three subjects
+    let mut n_hist = 0;
+    for sp in ["C M Ka", "C M Ka R[M Ka M]", "C Kd", "C C Xab R[Xca Kc]"] {
+        let sp = Program::parse(sp).expect("subject");
+        for s in sites(&sp) {
+            if matches!(s, Site::Gate2(..)) {
+                continue;
+            }
+            for h in crate::history::histories(if tier == Tier::Quick { 1 } else { 2 }) {
+                if tier == Tier::Thorough && h.len() == 2 && !matches!(s, Site::Witness(..) | Site::Gate(..)) {
+                    continue;
+                }
+                out.push(Case { curve: CURVES[idx % 3], prog: sp.clone(), site: s.clone(), delta: 0, hist: h });
+                idx += 1;
+                n_hist += 1;
+            }
+        }
+    }
+    let b = json!({"history_cases": n_hist, "histories": "every history of earlier same-thread calls (history.rs alphabet) of depth 1 in front of every single-site case of four subjects", "program_space": desc, "size_family": format!("S({})", sn), "programs": all.len(),
         "sites": "every witness input (C value, A value, M inputs; both phases) shifted on the prover only; every explicit constraint constant shifted on both roles; every gate x {l,r,o} overwritten through hook H1; every gate x 7 multi-wire patterns (opposite / equal shifts on two wires, with and without a recomputed output)",
         "deltas": DELTA_NAMES});
     (out, b)
 }
 
 fn case_json(c: &Case) -> Value {
-    json!({"curve": c.curve, "program": c.prog.name(), "site": c.site.json(), "delta": if matches!(c.site, Site::KStruct(_)) { ["-(sum of constants)", "+(sum of constants)", "-(first constant)", "+(last constant)"][c.delta] } else { DELTA_NAMES[c.delta] }})
+    json!({"curve": c.curve, "program": c.prog.name(), "history": crate::history::hist_name(&c.hist), "site": c.site.json(), "delta": if matches!(c.site, Site::KStruct(_)) { ["-(sum of constants)", "+(sum of constants)", "-(first constant)", "+(last constant)"][c.delta] } else { DELTA_NAMES[c.delta] }})
 }
 
 pub fn main(o: &Opts) -> i32 {
@@ -315,6 +346,7 @@ pub fn replay(path: &str, o: &Opts) -> i32 {
         curve,
         prog: Program::parse(case["program"].as_str().unwrap()).expect("program"),
         site: Site::from_json(&case["site"]),
+        hist: crate::history::parse_hist(case["history"].as_str().unwrap_or("")).expect("history"),
         delta: DELTA_NAMES.iter().position(|d| Some(*d) == case["delta"].as_str()).or_else(|| ["-(sum of constants)", "+(sum of constants)", "-(first constant)", "+(last constant)"].iter().position(|d| Some(*d) == case["delta"].as_str())).unwrap(),
     };
     let seed = v["seed"].as_u64().unwrap_or(o.seed);
